@@ -12,6 +12,7 @@ import (
 	"net/url"
 	"os"
 	"path/filepath"
+	"regexp"
 	"sort"
 	"strings"
 	"time"
@@ -243,8 +244,31 @@ func firstLine(s string) string {
 // then runs the system to quiescence. A panic in the handler is recovered and recorded.
 func (w *World) Do(r Req) Resp {
 	resp := w.DoNoQuiesce(r)
-	vrt.Quiesce()
+	if vrt.Cur() <= 0 { // inside a scenario thread the system is not run to quiescence
+		vrt.Quiesce()
+	}
 	return resp
+}
+
+// CancelCtx is a context whose Done channel the scheduler knows about.
+type CancelCtx struct {
+	context.Context
+	done chan struct{}
+	err  error
+}
+
+func NewCancelCtx() *CancelCtx {
+	return &CancelCtx{Context: context.Background(), done: make(chan struct{})}
+}
+
+func (c *CancelCtx) Done() <-chan struct{} { return c.done }
+func (c *CancelCtx) Err() error            { return c.err }
+func (c *CancelCtx) Cancel() {
+	if c.err == nil {
+		c.err = context.Canceled
+		vrt.MarkClosed(c.done)
+		close(c.done)
+	}
 }
 
 func (w *World) DoNoQuiesce(r Req) (resp Resp) {
@@ -328,7 +352,7 @@ func (w *World) DoNoQuiesce(r Req) (resp Resp) {
 			w.Sh.ServeHTTP(httptest.NewRecorder(), req2)
 		}()
 	}
-	if w.Conf != nil && w.Conf.Step > 0 {
+	if w.Conf != nil && w.Conf.Step > 0 && vrt.Cur() <= 0 {
 		vrt.Quiesce()
 		vrt.Advance(w.Conf.Step, false)
 	}
@@ -562,8 +586,43 @@ func (w *World) Fingerprint(model string) (string, string) {
 	if w.Dead != "" {
 		sb.WriteString("\n--dead--\n" + w.Dead)
 	}
-	full := w.Canon(sb.String())
+	full := canonTemp(w.Canon(sb.String()))
 	return HashStr(full), full
 }
 
 var _ = time.Now
+
+var tempNameRE = regexp.MustCompile(`(upload|index\.json)\.([0-9a-f]+-)?[0-9]+`)
+
+// canonTemp renumbers the temporary file names that are still around by order of their names (creation order).
+func canonTemp(s string) string {
+	names := map[string]bool{}
+	for _, m := range tempNameRE.FindAllString(s, -1) {
+		names[m] = true
+	}
+	if len(names) == 0 {
+		return s
+	}
+	var list []string
+	for n := range names {
+		list = append(list, n)
+	}
+	sort.Slice(list, func(i, j int) bool {
+		if len(list[i]) != len(list[j]) {
+			return len(list[i]) < len(list[j])
+		}
+		return list[i] < list[j]
+	})
+	num := map[string]int{}
+	for i, n := range list {
+		num[n] = i + 1
+	}
+	s = tempNameRE.ReplaceAllStringFunc(s, func(n string) string {
+		base := "upload"
+		if strings.HasPrefix(n, "index.json") {
+			base = "index.json"
+		}
+		return fmt.Sprintf("%s.#%d", base, num[n])
+	})
+	return s
+}
